@@ -26,10 +26,10 @@ ASSUMPTIONS = [
     "skipped",
 ]
 REQUIRED = {"eval.post": 1000, "triggered_reruns": 100, "kind:tr": 10,
-            "kind:init": 10, "kind:geo": 5}
+            "kind:init": 10, "kind:geo": 5, "kind:soc": 5}
 MIN_NONTRIVIAL = {"quick": 15, "thorough": 60}
 PLAN = [("target", 450, 7000), ("callback", 350, 5000), ("feas", 250, 4000),
-        ("multi", 150, 2500)]
+        ("multi", 150, 2500), ("soc", 300, 4000)]
 
 
 def cases(tier, seed):
@@ -52,10 +52,23 @@ def base_spec(rng, fam):
 def run_case(case):
     rng = e2e.rng_of(ID, case)
     fam = case["fam"]
-    spec = base_spec(rng, fam)
+    force_kind = None
+    if fam == "soc":
+        # problems with a curved feasible set hugging a face of the box (the
+        # C01 'soc' generator): second-order-correction evaluations abound;
+        # the request is placed on one of them
+        from checks import c01
+        spec = c01.make_spec({"id": case["id"], "fam": "soc",
+                              "idx": case["idx"], "seed": case["seed"]})
+        spec["options"].pop("scale", None)
+        force_kind = "soc"
+        fam = str(rng.choice(["target", "callback", "multi"],
+                             p=[0.2, 0.65, 0.15]))
+    else:
+        spec = base_spec(rng, fam)
     dry = mrun.run(spec)
     counts = e2e.base_counts(dry)
-    tags = ["fam:" + fam]
+    tags = ["fam:" + case["fam"]]
     if dry.res is None:
         return e2e.record(case, [], tags=tags + ["dry:exception"],
                           counts=counts, skipped=True)
@@ -68,7 +81,8 @@ def run_case(case):
         chosen_kind = info.get("trigger_kind")
     else:
         # candidate trigger positions
-        want_kind = str(rng.choice(["init", "tr", "soc", "geo", "first"]))
+        want_kind = force_kind or str(rng.choice(["init", "tr", "soc", "geo",
+                                                  "first"]))
         cands = []
         best = math.inf
         for r in table:
